@@ -25,6 +25,8 @@ type Env struct {
 	info  *types.Info
 	depth int
 	scopePos token.Pos // atcall clauses: plain local names resolve as at this source position
+	iterHeap  *Heap    // iter(e): heap and locals at the head of the current iteration of loop 0
+	iterCells map[*ssa.Alloc]*Term
 }
 
 func (en *Env) with(heap *Heap) *Env {
@@ -34,7 +36,7 @@ func (en *Env) with(heap *Heap) *Env {
 }
 
 func (x *Exec) loopEnv(fr *Frame, st *State) *Env {
-	env := &Env{x: x, vars: map[string]*SV{}, heap: st.heap, old: x.heap0, fr: fr}
+	env := &Env{x: x, vars: map[string]*SV{}, heap: st.heap, old: x.heap0, fr: fr, iterHeap: fr.iterHeap, iterCells: fr.iterCells}
 	for k, v := range x.entryEnv {
 		env.vars[k] = v
 	}
@@ -715,14 +717,16 @@ func (en *Env) evalOverlayCall(fobj *types.Func, decl *ast.FuncDecl, n *ast.Call
 	case "iter":
 		// the value at the head of the current iteration of the unit's loop 0 (after the
 		// invariant was assumed): heap and locals of that moment
-		if en.fr == nil || en.fr.iterHeap == nil {
+		if en.iterHeap == nil {
 			unsupportedf("iter(...) outside loop 0 of the unit")
 		}
 		c := *en
-		c.heap = en.fr.iterHeap
-		f2 := *en.fr
-		f2.cells = en.fr.iterCells
-		c.fr = &f2
+		c.heap = en.iterHeap
+		if en.fr != nil {
+			f2 := *en.fr
+			f2.cells = en.iterCells
+			c.fr = &f2
+		}
 		return c.eval(n.Args[0])
 	case "__imp":
 		return TV(Imp(en.evalT(n.Args[0]), en.evalT(n.Args[1])))
@@ -963,7 +967,7 @@ func (en *Env) evalOverlayCall(fobj *types.Func, decl *ast.FuncDecl, n *ast.Call
 	if en.depth > 12 {
 		unsupportedf("pred recursion too deep at %s", name)
 	}
-	sub := &Env{x: x, vars: map[string]*SV{}, bound: map[string]*Term{}, heap: en.heap, old: en.old, st: en.st, info: en.info, depth: en.depth + 1}
+	sub := &Env{x: x, vars: map[string]*SV{}, bound: map[string]*Term{}, heap: en.heap, old: en.old, st: en.st, info: en.info, depth: en.depth + 1, iterHeap: en.iterHeap, iterCells: en.iterCells}
 	// bound variables of the caller are not visible by name inside the pred (its parameters shadow
 	// them); they are kept under a private name so that "is a quantifier open" checks still see them
 	for k, v := range en.bound {
@@ -1222,7 +1226,7 @@ func (e *Engine) staticLocComps(ex ast.Expr, info *types.Info, add func(string))
 					add("E!" + typeKey(st.Elem()))
 				}
 			case "mapof":
-				k := typeKey(info.Types[n.Args[0]].Type)
+				k := mapTypeKey(info.Types[n.Args[0]].Type)
 				add("MV!" + k)
 				add("MD!" + k)
 			case "imrow":
